@@ -7,13 +7,16 @@ want = sys.argv[1:]
 for d in sorted(glob.glob(V + '/seeded/*/')):
     sid = os.path.basename(d.rstrip('/'))
     if want and sid not in want: continue
-    r = subprocess.run([V + '/tools/try_seed.sh', d + 'patch.diff', 'quick'], capture_output=True, text=True)
+    props = os.environ.get('MATRIX_PROPS', '').split()   # e.g. "C17": re-run only these checks, keep the other results
+    r = subprocess.run([V + '/tools/try_seed.sh', d + 'patch.diff', 'quick'] + props, capture_output=True, text=True)
     res = {}
     for l in r.stdout.splitlines():
         m = re.match(r'(C\d\d): (CAUGHT|missed|harness error)(.*)', l)
         if m: res[m.group(1)] = {'result': m.group(2), 'class': m.group(3).replace('class:', '').strip()}
     mp = d + 'meta.json'
     meta = json.load(open(mp)) if os.path.exists(mp) else {'id': sid}
+    if props and 'results' in meta:
+        merged = dict(meta['results']); merged.update(res); res = dict(sorted(merged.items()))
     meta['results'] = res
     meta['caught_by'] = [k for k, v in res.items() if v['result'] == 'CAUGHT']
     meta['checks_run'] = 'tools/try_seed.sh <patch> quick (scratch worktree of /repo + VERIF_REPO; all eight claimed checks, quick tier, VERIF_SEED=1)'
